@@ -510,4 +510,289 @@ Proof.
     + intros (w & Hne & Hw). destruct (Hall w t Hw) as [->|Hd]; [apply N0_root' in Hw; congruence|apply in_rev in Hd; exact Hd].
 Qed.
 
+(* ---- the output of a node under the leftmost kinds ------------------------------------------- *)
+Lemma find_first (f : nat -> bool) : forall n a m, find f (seq a n) = Some m ->
+  f m = true /\ (a <= m < a + n)%nat /\ forall k, (a <= k < m)%nat -> f k = false.
+Proof.
+  induction n as [|n IH]; intros a m H; cbn [seq find] in H; [discriminate|]. destruct (f a) eqn:E.
+  - inversion H; subst. split; [exact E|]. split; [lia|]. intros k Hk. lia.
+  - destruct (IH (S a) m H) as (H1 & H2 & H3). split; [exact H1|]. split; [lia|].
+    intros k Hk. destruct (Nat.eq_dec k a) as [->|Hne]; [exact E|apply H3; lia].
+Qed.
+Lemma find_none' (f : nat -> bool) n a : find f (seq a n) = None -> forall k, (a <= k < a + n)%nat -> f k = false.
+Proof. intros H k Hk. apply (find_none _ _ H). apply in_seq. lia. Qed.
+
+Lemma occurs_at_iff0 u k : Cert.occurs_at V outs u k = true <-> exists e, occ u k e.
+Proof.
+  unfold Cert.occurs_at. rewrite existsb_exists. split.
+  - intros [[p v] [Hin Hp]]. cbn [fst] in Hp. apply is_prefix_iff_ex in Hp as [r Hr].
+    destruct (pats_ok0 p v Hin) as [Hne _]. exists (k + length p)%nat.
+    assert (Hl : length (skipn k u) = (length p + length r)%nat) by (rewrite Hr, app_length; reflexivity). rewrite skipn_length in Hl.
+    split; [destruct p; [congruence|cbn [length] in *; lia]|]. unfold sub. replace (k + length p - k)%nat with (length p) by lia.
+    rewrite Hr, firstn_app, Nat.sub_diag, firstn_all. cbn [firstn]. rewrite app_nil_r. apply isPat_iff. eauto.
+  - intros [e [[H1 H2] Hp]]. apply isPat_iff in Hp as [v Hv]. exists (sub u k e, v). split; [exact Hv|]. cbn [fst].
+    apply is_prefix_iff_ex. exists (skipn (e - k) (skipn k u)). unfold sub. symmetry. apply firstn_skipn.
+Qed.
+
+Lemma mu0_some u m : mu0 u = Some m -> (exists e, occ u m e) /\ forall k e, occ u k e -> (m <= k)%nat.
+Proof.
+  unfold Cert.mu0. intros H. apply find_first in H as (H1 & H2 & H3). split; [apply occurs_at_iff0; exact H1|].
+  intros k e Ho. destruct (le_lt_dec m k) as [L|L]; [exact L|]. assert (Cert.occurs_at V outs u k = true) by (apply occurs_at_iff0; eauto).
+  rewrite (H3 k ltac:(lia)) in H. discriminate.
+Qed.
+Lemma mu0_none u : mu0 u = None -> forall k e, ~ occ u k e.
+Proof.
+  unfold Cert.mu0. intros H k e Ho. assert (Hk : Cert.occurs_at V outs u k = true) by (apply occurs_at_iff0; eauto).
+  rewrite (find_none' _ _ _ H k) in Hk; [discriminate|]. destruct Ho as [[? ?] _]. lia.
+Qed.
+Lemma mu0_intro u m : (exists e, occ u m e) -> (forall k e, occ u k e -> (m <= k)%nat) -> mu0 u = Some m.
+Proof.
+  intros [e He] Hmin. destruct (mu0 u) as [m'|] eqn:E.
+  - destruct (mu0_some u m' E) as [[e' He'] Hmin']. f_equal. pose proof (Hmin m' e' He'). pose proof (Hmin' m e He). lia.
+  - exfalso. exact (mu0_none u E m e He).
+Qed.
+
+Lemma pats_eq_isPat x lv r : Cert.pats_eq V plen outs x = lv :: r -> isPat x = true.
+Proof.
+  unfold Cert.pats_eq. intros H. destruct (filter (fun pv => list_eqb (fst pv) x) outs) as [|[p v] l] eqn:E; [discriminate|].
+  assert (Hin : In (p, v) (filter (fun pv => list_eqb (fst pv) x) outs)) by (rewrite E; left; reflexivity).
+  apply filter_In in Hin as [Hin Hp]. cbn [fst] in Hp. apply list_eqb_eq in Hp. subst p. apply isPat_iff. eauto.
+Qed.
+
+(* O1 *)
+Lemma lmout_pattern u v : u <> [] -> In (u, v) outs -> lmout u = Some (plen u, v).
+Proof.
+  intros Hu Hin. unfold Cert.lm_out. assert (isPat u = true) as Hp by (apply isPat_iff; eauto).
+  rewrite (mu0_intro u 0 (ex_intro _ _ (occ_whole u Hu Hp)) ltac:(intros; lia)). cbn [skipn].
+  rewrite (pateq_some V lbytes outs ND0 u v Hin). reflexivity.
+Qed.
+
+(* O2 *)
+Lemma lmout_dead u : u <> [] -> isPat u = false -> lmdead u = true -> lmout u = None.
+Proof.
+  intros Hu Hnp Hd. unfold Cert.lm_out. unfold Cert.lm_dead in Hd. destruct (mu0 u) as [m|] eqn:Em; [|reflexivity].
+  apply Nat.ltb_lt in Hd. destruct (Cert.pats_eq V plen outs (skipn m u)) as [|lv r] eqn:Ep; [reflexivity|]. exfalso.
+  apply pats_eq_isPat in Ep. destruct m as [|m]; [cbn [skipn] in Ep; congruence|].
+  apply isPat_iff in Ep as [v Hv]. destruct (pats_ok0 _ v Hv) as [_ Hnode].
+  destruct u as [|a r']; [congruence|]. cbn [skipn tl length] in *.
+  destruct (lsuf_longest c0 r' (firstn m r') (skipn m r') (eq_sym (firstn_skipn m r')) Hnode) as [q Hq].
+  apply (f_equal (@length N)) in Hq. rewrite app_length, skipn_length in Hq. lia.
+Qed.
+
+Lemma occ_skip y x s e : (length y <= s)%nat -> occ (y ++ x) s e <-> occ x (s - length y) (e - length y).
+Proof.
+  intros Hs. unfold Leftmost.occ, sub. rewrite skipn_app, skipn_all2 by lia. cbn [app]. rewrite app_length.
+  replace (e - length y - (s - length y))%nat with (e - s)%nat by lia. split; intros [H1 H2]; (split; [lia|exact H2]).
+Qed.
+
+(* O3 *)
+Lemma lmout_live u : u <> [] -> isPat u = false -> lmdead u = false -> lmout u = lmout (lsuf0 (tl u)).
+Proof.
+  intros Hu Hnp Hd. pose proof (lm_dead_false0 u Hd) as Hge. set (x := lsuf0 (tl u)) in *.
+  destruct (lsuf_suffix c0 (tl u)) as [p Hp]. fold x in Hp. destruct u as [|a r]; [congruence|]. cbn [tl] in *.
+  set (y := a :: p). assert (Hux : a :: r = y ++ x) by (unfold y; cbn [app]; rewrite <- Hp; reflexivity).
+  assert (Hyl : (length (a :: r) - length x)%nat = length y) by (rewrite Hux, app_length; lia). rewrite Hyl in Hge.
+  unfold Cert.lm_out. destruct (mu0 x) as [mx|] eqn:Ex.
+  - destruct (mu0_some x mx Ex) as [[e He] Hmin].
+    rewrite (mu0_intro (a :: r) (length y + mx)).
+    + rewrite Hux, skipn_app, skipn_all2 by lia. cbn [app]. replace (length y + mx - length y)%nat with mx by lia. reflexivity.
+    + exists (length y + e)%nat. rewrite Hux. apply (occ_skip y x); [lia|]. replace (length y + mx - length y)%nat with mx by lia. replace (length y + e - length y)%nat with e by lia. exact He.
+    + intros k e' Ho. pose proof (Hge k e' Ho) as Hk. rewrite Hux in Ho. apply (occ_skip y x k e' Hk) in Ho. pose proof (Hmin _ _ Ho). lia.
+  - destruct (mu0 (a :: r)) as [m|] eqn:Em; [|reflexivity]. exfalso. destruct (mu0_some _ m Em) as [[e He] _].
+    pose proof (Hge m e He) as Hk. rewrite Hux in He. apply (occ_skip y x m e Hk) in He. exact (mu0_none x Ex _ _ He).
+Qed.
+
+(* ---- build_outputs under the leftmost kinds ------------------------------------------------------ *)
+Hypothesis LEN0 : N.of_nat (length outs) < U32_MAX.
+Notation outposof := (NfaFails.outposof V).
+Notation same_links := (NfaFails.same_links V).
+
+Definition LOutOK (n : nfa V) (t : N) : Prop :=
+  forall u, N0 u t ->
+    match lmout u with
+    | None => outposof n t = 0
+    | Some lv => outposof n t <> 0 /\ exists o, nth_error (n_outputs n) (N.to_nat (outposof n t - 1)) = Some o
+                                             /\ o_length o = fst lv /\ o_value o = snd lv
+    end.
+
+Section LOuts.
+Variable n1 : nfa V.
+Hypothesis ST1 : same_trie n1.
+Hypothesis F1 : forall w t, N0 w t -> w <> [] -> lfail_spec n1 t w.
+Hypothesis R1 : failof n1 ROOT = ROOT.
+
+Record LOI (n : nfa V) (qd : list N) : Prop := {
+  loi_links : same_links n1 n;
+  loi_ok : forall t, t = ROOT \/ In t qd -> LOutOK n t;
+  loi_dead : outposof n DEAD = 0;
+  loi_cnt : exists pushed : list (list N), length pushed = length (n_outputs n) /\ NoDup pushed /\ incl pushed (map fst outs)
+             /\ forall p, In p pushed -> exists t, In t qd /\ N0 p t
+}.
+
+Lemma LOutOK_app n n' t x : outposof n' t = outposof n t -> n_outputs n' = n_outputs n ++ x -> LOutOK n t -> LOutOK n' t.
+Proof.
+  intros Hp Ho H u Hu. specialize (H u Hu). rewrite Hp, Ho. destruct (lmout u) as [lv|]; [|exact H].
+  destruct H as (Hz & o & Hn & Hl & Hv). split; [exact Hz|]. exists o. split; [|auto]. rewrite nth_error_app1; [exact Hn|]. apply nth_error_Some. congruence.
+Qed.
+
+Lemma loutputs_loop_ok : forall q n qd, LOI n qd ->
+  NoDup (qd ++ q) -> StronglySorted (fun a b => (dep paths a <= dep paths b)%nat) (qd ++ q) ->
+  (forall t, In t (qd ++ q) <-> exists w, w <> [] /\ N0 w t) ->
+  exists n', outputs_loop V n q = Ok n' /\ LOI n' (qd ++ q).
+Proof.
+  induction q as [|sid q IH]; intros n qd OIn Hnd Hso Hmem; cbn [outputs_loop].
+  - exists n. rewrite app_nil_r. auto.
+  - assert (Hsid : In sid (qd ++ sid :: q)) by (apply in_app_iff; right; left; reflexivity).
+    destruct (proj1 (Hmem sid) Hsid) as (w & Hwne & Hw).
+    pose proof (loi_links _ _ OIn) as SL.
+    destruct (same_links_get V lbytes n0 outs paths T0 n1 ST1 n sid SL (N0_lt' _ _ Hw)) as (st & st0 & Hg & G1 & G0 & Ho & Hf). rewrite Hg. cbn [bind].
+    pose proof (F1 w sid Hw Hwne) as Hfw. unfold lfail_spec in Hfw. rewrite <- Hf in Hfw.
+    assert (Hsd : sid <> DEAD) by exact (node_not_dead _ _ Hw).
+    assert (Hsr : sid <> ROOT) by (intros ->; apply N0_root' in Hw; congruence).
+    (* the state behind the fail link: dead, the root, or a node processed earlier *)
+    assert (Hfs : exists fs, nfa_get V n (n_fail st) = Ok fs /\ nget (n_fail st) (n_states n) = Some fs /\ n_fail st <> sid
+                   /\ (if lmdead w then n_outpos fs = 0 else LOutOK n (n_fail st) /\ N0 (lsuf0 (tl w)) (n_fail st))).
+    { destruct (lmdead w) eqn:Ed.
+      - rewrite Hfw. assert (Hdl : DEAD < n_nstates n0) by (pose proof (ti_cnt _ _ _ _ _ _ T0); unfold DEAD; lia).
+        destruct (same_links_get V lbytes n0 outs paths T0 n1 ST1 n DEAD SL Hdl) as (fs & _ & Hgf & G1f & _). exists fs. split; [exact Hgf|]. split; [exact G1f|]. split; [congruence|].
+        pose proof (loi_dead _ _ OIn) as Hd0. unfold NfaFails.outposof in Hd0. rewrite G1f in Hd0. exact Hd0.
+      - destruct (same_links_get V lbytes n0 outs paths T0 n1 ST1 n (n_fail st) SL (N0_lt' _ _ Hfw)) as (fs & _ & Hgf & G1f & _). exists fs. split; [exact Hgf|]. split; [exact G1f|].
+        assert (Hdl : (dep paths (n_fail st) < dep paths sid)%nat).
+        { rewrite (dep_N0' _ _ Hfw), (dep_N0' _ _ Hw). pose proof (lsuf0_len V n0 (tl w)). destruct w; [congruence|cbn [tl length] in *; lia]. }
+        split; [intros E; rewrite E in Hdl; lia|]. split; [|exact Hfw].
+        apply (loi_ok _ _ OIn). destruct (N.eq_dec (n_fail st) ROOT) as [E|Hne]; [left; exact E|right].
+        assert (Hin : In (n_fail st) (qd ++ sid :: q)).
+        { apply Hmem. exists (lsuf0 (tl w)). split; [|exact Hfw]. intros E. rewrite E in Hfw. unfold NfaFails.N0 in Hfw. cbn in Hfw. congruence. }
+        apply in_app_iff in Hin as [Hin|Hin]; [exact Hin|exfalso].
+        apply ssorted_app_iff in Hso as (_ & Hso & _). inversion Hso as [|? ? _ Hfa]; subst. rewrite Forall_forall in Hfa.
+        destruct Hin as [E|Hin]; [rewrite E in Hdl; lia|]. specialize (Hfa _ Hin). lia. }
+    destruct Hfs as (fs & Hgf & G1f & Hfne & Hfcase).
+    assert ((n_fail st =? sid) = false) as -> by (apply N.eqb_neq; exact Hfne). rewrite Hgf. cbn [bind].
+    pose proof (ti_out _ _ _ _ _ _ T0 w sid st0 Hw G0) as Hto. rewrite <- Ho in Hto.
+    replace (qd ++ sid :: q) with ((qd ++ [sid]) ++ q) in * by (rewrite <- app_assoc; reflexivity).
+    destruct (loi_cnt _ _ OIn) as (pushed & Hpl & Hpn & Hpi & Hpq).
+    assert (Hcase : forall t, t = ROOT \/ In t (qd ++ [sid]) -> t = sid \/ (t <> sid /\ (t = ROOT \/ In t qd))).
+    { intros t Ht. destruct (N.eq_dec t sid) as [->|Hne]; [left; reflexivity|right]. split; [exact Hne|].
+      destruct Ht as [->|Ht]; [left; reflexivity|]. apply in_app_iff in Ht as [Ht|[E|[]]]; [right; exact Ht|congruence]. }
+    destruct (n_output st) as [[v len]|] eqn:Eo.
+    + destruct Hto as [Hin ->].
+      assert (Hpat : isPat w = true) by (apply isPat_iff; eauto).
+      rewrite (lmdead_pattern w Hwne Hpat) in Hfcase.
+      assert (Hnew : ~ In w pushed).
+      { intros Hi. destruct (Hpq w Hi) as (t & Ht & Hwt). assert (t = sid) by (unfold NfaFails.N0 in *; congruence). subst t.
+        rewrite <- app_assoc in Hnd. apply NoDup_remove_2 in Hnd. apply Hnd. apply in_app_iff. left. exact Ht. }
+      assert (Hbound : (length (w :: pushed) <= length outs)%nat).
+      { rewrite <- (map_length fst outs). apply NoDup_incl_length; [constructor; assumption|].
+        intros x [<-|Hx]; [apply in_map_iff; exists (w, v); auto|exact (Hpi x Hx)]. }
+      cbn [length] in Hbound.
+      assert ((U32_MAX <? N.of_nat (length (n_outputs n)) + 1) = false) as -> by (apply N.ltb_ge; lia).
+      apply IH; try assumption. clear IH.
+      set (no := {| o_value := v; o_length := plen w; o_parent := n_outpos fs |}).
+      constructor.
+      * destruct SL as (S1 & S2 & S3). unfold NfaFails.same_links, nfa_set. cbn [n_nstates n_kind n_states]. repeat split; try assumption.
+        intros j. destruct (N.eq_dec j sid) as [->|Hne].
+        -- rewrite ngss. specialize (S3 sid). rewrite G1 in S3. destruct (nget sid (n_states n1)); [|contradiction]. cbn. rewrite <- Eo. exact S3.
+        -- rewrite ngso by exact Hne. exact (S3 j).
+      * intros t Ht. destruct (Hcase t Ht) as [->|[Hne Ht']].
+        -- intros u Hu. rewrite (N0_inj' _ _ _ Hu Hw). rewrite (lmout_pattern w v Hwne Hin).
+           unfold NfaFails.outposof, nfa_set. cbn [n_states n_outputs]. rewrite ngss. cbn [n_outpos]. split; [lia|].
+           exists no. split; [|split; reflexivity].
+           replace (N.to_nat (N.of_nat (length (n_outputs n)) + 1 - 1)) with (length (n_outputs n)) by lia.
+           rewrite nth_error_app2 by lia. rewrite Nat.sub_diag. reflexivity.
+        -- apply (LOutOK_app n _ t [no]); [| reflexivity |exact (loi_ok _ _ OIn t Ht')].
+           unfold NfaFails.outposof, nfa_set. cbn [n_states]. rewrite ngso by exact Hne. reflexivity.
+      * unfold NfaFails.outposof, nfa_set. cbn [n_states]. rewrite ngso by congruence. exact (loi_dead _ _ OIn).
+      * exists (pushed ++ [w]). unfold nfa_set. cbn [n_outputs]. rewrite !app_length. cbn [length]. split; [lia|]. split.
+        -- apply nodup_app_intro. split; [exact Hpn|]. split; [constructor; [intros []|constructor]|]. intros x Hx [<-|[]]. exact (Hnew Hx).
+        -- split.
+           ++ intros x Hx. apply in_app_iff in Hx as [Hx|[<-|[]]]; [exact (Hpi x Hx)|apply in_map_iff; exists (w, v); auto].
+           ++ intros x Hx. apply in_app_iff in Hx as [Hx|[<-|[]]].
+              ** destruct (Hpq x Hx) as (t & Ht & Hxt). exists t. split; [apply in_app_iff; left; exact Ht|exact Hxt].
+              ** exists sid. split; [apply in_app_iff; right; left; reflexivity|exact Hw].
+    + assert (Hnp : isPat w = false).
+      { destruct (isPat w) eqn:E; [|reflexivity]. apply isPat_iff in E as [v Hv]. exfalso. exact (Hto v Hv). }
+      apply IH; try assumption. clear IH.
+      constructor.
+      * destruct SL as (S1 & S2 & S3). unfold NfaFails.same_links, nfa_set. cbn [n_nstates n_kind n_states]. repeat split; try assumption.
+        intros j. destruct (N.eq_dec j sid) as [->|Hne].
+        -- rewrite ngss. specialize (S3 sid). rewrite G1 in S3. destruct (nget sid (n_states n1)); [|contradiction]. cbn. rewrite <- Eo. exact S3.
+        -- rewrite ngso by exact Hne. exact (S3 j).
+      * intros t Ht. destruct (Hcase t Ht) as [->|[Hne Ht']].
+        -- intros u Hu. rewrite (N0_inj' _ _ _ Hu Hw).
+           assert (Hop : outposof (nfa_set V n sid {| n_edges := n_edges st; n_fail := n_fail st; n_output := None; n_outpos := n_outpos fs |}) sid = n_outpos fs)
+             by (unfold NfaFails.outposof, nfa_set; cbn [n_states]; rewrite ngss; reflexivity).
+           rewrite Hop. cbn [n_outputs nfa_set]. destruct (lmdead w) eqn:Ed.
+           ++ rewrite (lmout_dead w Hwne Hnp Ed). exact Hfcase.
+           ++ destruct Hfcase as [Hfo Hfn]. rewrite (lmout_live w Hwne Hnp Ed). specialize (Hfo _ Hfn).
+              unfold NfaFails.outposof in Hfo. rewrite G1f in Hfo. exact Hfo.
+        -- intros u Hu. pose proof (loi_ok _ _ OIn t Ht' u Hu) as H. unfold NfaFails.outposof, nfa_set in *. cbn [n_states n_outputs]. rewrite ngso by exact Hne. exact H.
+      * unfold NfaFails.outposof, nfa_set. cbn [n_states]. rewrite ngso by congruence. exact (loi_dead _ _ OIn).
+      * exists pushed. cbn [n_outputs nfa_set]. split; [exact Hpl|]. split; [exact Hpn|]. split; [exact Hpi|].
+        intros x Hx. destruct (Hpq x Hx) as (t & Ht & Hxt). exists t. split; [apply in_app_iff; left; exact Ht|exact Hxt].
+Qed.
+End LOuts.
+
+(* ---- finish_nfa, leftmost kinds --------------------------------------------------------------- *)
+Hypothesis OP0 : forall i st, nget i (n_states n0) = Some st -> n_outpos st = 0.
+Hypothesis OUT0 : n_outputs n0 = [].
+Hypothesis NE0 : outs <> [].
+Hypothesis LM0 : n_kind n0 <> Standard.
+
+Theorem finish_nfa_lm_ok :
+  exists n2, finish_nfa V n0 = Ok n2
+    /\ n_nstates n2 = n_nstates n0 /\ n_kind n2 = n_kind n0
+    /\ (forall s c, tchild V n2 s c = tchild V n0 s c)
+    /\ (forall w t, N0 w t -> w <> [] -> lfail_spec n2 t w)
+    /\ (forall w t, N0 w t -> LOutOK n2 t)
+    /\ (N.of_nat (length (n_outputs n2)) <= N.of_nat (length outs))
+    /\ (forall i, i < n_nstates n0 -> exists st st0, nget i (n_states n2) = Some st /\ nget i (n_states n0) = Some st0
+                                                   /\ n_edges st = n_edges st0 /\ n_output st = n_output st0).
+Proof.
+  unfold finish_nfa.
+  destruct build_fails_lm_ok as (n1 & q & Hb & ST1 & R1 & F1 & Hnd & Hso & Hmem).
+  assert (Hbf : (match n_kind n0 with Standard => build_fails V n0 | _ => build_fails_leftmost V n0 end) = Ok (n1, q)).
+  { destruct (n_kind n0); [congruence|exact Hb|exact Hb]. }
+  rewrite Hbf. cbn [bind].
+  assert (Hop1 : forall t, outposof n1 t = 0).
+  { intros t. unfold NfaFails.outposof. destruct ST1 as (_ & _ & _ & H). specialize (H t).
+    destruct (nget t (n_states n1)) as [st|] eqn:E; [|reflexivity]. destruct (nget t (n_states n0)) as [st0|] eqn:E0; [|contradiction].
+    destruct H as (_ & _ & ->). exact (OP0 t st0 E0). }
+  assert (OI1 : LOI n1 n1 []).
+  { constructor.
+    - apply same_links_refl.
+    - intros t [->|[]] u Hu. apply N0_root' in Hu. subst u. rewrite Hop1. reflexivity.
+    - apply Hop1.
+    - exists []. destruct ST1 as (_ & _ & -> & _). rewrite OUT0. cbn. repeat split; [constructor|intros x []|intros x []]. }
+  destruct (loutputs_loop_ok n1 ST1 F1 R1 q n1 [] OI1 Hnd Hso Hmem) as (n2 & Ho & OI2). cbn [app] in OI2.
+  assert (Hex : exists p v, In (p, v) outs).
+  { pose proof NE0 as Hne. clear -Hne. destruct outs as [|[p v] r]; [congruence|]. exists p, v. left. reflexivity. }
+  destruct Hex as (p & v & Hpv).
+  assert (Hp : exists t, N0 p t /\ p <> []).
+  { pose proof (ti_sub _ _ _ _ _ _ T0 p v Hpv) as Hin. pose proof (proj1 (ti_mem _ _ _ _ _ _ T0 p) Hin) as [Hpne _].
+    apply In_nth_error in Hin as [i Hi]. eexists. split; [exact (ti_fwd _ _ _ _ _ _ T0 i p Hi)|exact Hpne]. }
+  destruct Hp as (tp & Htp & Hpne). assert (Hinq : In tp q) by (apply Hmem; exists p; auto).
+  unfold build_outputs. destruct q as [|q0 q']; [destruct Hinq|].
+  assert ((q0 =? ROOT) = false) as ->.
+  { apply N.eqb_neq. intros ->. destruct (proj1 (Hmem ROOT) (or_introl eq_refl)) as (w & Hwne & Hw). apply N0_root' in Hw. congruence. }
+  exists n2. split; [exact Ho|].
+  destruct (loi_links _ _ _ OI2) as (L1 & L2 & L3). destruct ST1 as (S1 & S2 & S3 & S4).
+  split; [congruence|]. split; [congruence|]. split; [|split; [|split; [|split]]].
+  - intros s c. unfold tchild. specialize (L3 s). specialize (S4 s).
+    destruct (nget s (n_states n2)), (nget s (n_states n1)), (nget s (n_states n0)); try contradiction; try reflexivity.
+    destruct L3 as (-> & _). destruct S4 as (-> & _). reflexivity.
+  - intros w t Hw Hne. replace (failof n2 t) with (failof n1 t) in *.
+    + unfold lfail_spec. replace (failof n2 t) with (failof n1 t); [exact (F1 w t Hw Hne)|].
+      unfold NfaFails.failof. specialize (L3 t). destruct (nget t (n_states n2)), (nget t (n_states n1)); try contradiction; [|reflexivity].
+      destruct L3 as (_ & _ & ->). reflexivity.
+    + unfold NfaFails.failof. specialize (L3 t). destruct (nget t (n_states n2)), (nget t (n_states n1)); try contradiction; [|reflexivity].
+      destruct L3 as (_ & _ & ->). reflexivity.
+  - intros w t Hw. apply (loi_ok _ _ _ OI2). destruct (N.eq_dec t ROOT) as [->|Hne]; [left; reflexivity|right].
+    apply Hmem. exists w. split; [|exact Hw]. intros ->. unfold NfaFails.N0 in Hw. cbn in Hw. congruence.
+  - destruct (loi_cnt _ _ _ OI2) as (pushed & Hpl & Hpn & Hpi & _). rewrite <- Hpl.
+    pose proof (NoDup_incl_length Hpn Hpi) as Hle. rewrite map_length in Hle. lia.
+  - intros i Hi. destruct (ti_wf _ _ _ _ _ _ T0 i Hi) as [st0 Hst0]. specialize (L3 i). specialize (S4 i). rewrite Hst0 in S4.
+    destruct (nget i (n_states n1)) as [st1|]; [|contradiction]. destruct (nget i (n_states n2)) as [st|]; [|contradiction].
+    exists st, st0. destruct L3 as (A1 & A2 & _). destruct S4 as (B1 & B2 & _). repeat split; congruence.
+Qed.
+
 End LM.
